@@ -342,11 +342,35 @@ class LibMixin:
     def l_np_min(self, node, st):
         return self.arr_minmax(node, st, self.eval(node.args[0], st), True)
 
+    def ew_minmax(self, node, st, is_min):
+        vals = [self.eval(a, st) for a in node.args]
+        if all(isinstance(v, Sc) for v in vals):
+            return self.minmax(node, st, is_min)
+        kinds = [v.kind if isinstance(v, Sc) else self.elem_kind(st, v) for v in vals]
+        rk = "real" if "real" in kinds else "int"
+
+        def f(x, y):
+            x = z3.ToReal(x) if (rk == "real" and x.sort() == INT) else x
+            y = z3.ToReal(y) if (rk == "real" and y.sort() == INT) else y
+            return ite((x < y) if is_min else (x > y), x, y)
+        return self.elementwise(st, node, f, vals, rk)
+
     def l_np_maximum(self, node, st):
-        return self.minmax(node, st, False)
+        return self.ew_minmax(node, st, False)
 
     def l_np_minimum(self, node, st):
-        return self.minmax(node, st, True)
+        return self.ew_minmax(node, st, True)
+
+    def l_np_divmod(self, node, st):
+        a, b = self.eval(node.args[0], st), self.eval(node.args[1], st)
+        if isinstance(a, Sc):
+            return self.b_divmod(node, st)
+        if not isinstance(b, Sc) or self.elem_kind(st, a) != "int" or b.kind != "int":
+            raise VCError("np.divmod form at line %d" % node.lineno)
+        self.oblige(st, "div", node, b.t != 0, "np.divmod by zero")
+        q = self.elementwise(st, node, lambda x: py_floordiv(x, b.t), [a], "int")
+        r = self.elementwise(st, node, lambda x: py_mod(x, b.t), [a], "int")
+        return Tup([q, r])
 
     def b_ord(self, node, st):
         v = self.eval(node.args[0], st)
